@@ -12,6 +12,7 @@ Static clauses:
             reduced template must give byte-identical payloads in one process or two)
   S-LANG    each `plutus_vN_script` bucket gets the language id N-1 on the way to the LanguageView, and no min / max / sort runs
             over items that are still Options (an absent bucket must not win the selection of the hashed language)
+  S-PRESENT (values)  `Value::Multiasset(coin, map)` is built only around a map known to hold an entry
 Not decided: that a standard decoder accepts the bytes (pallas' encoder, a dependency), digest values.
 """
 import re
